@@ -85,6 +85,8 @@ mod permissions;
 #[cfg(test)]
 mod test_utils;
 mod validation;
+#[cfg(feature = "verif-hooks")]
+pub mod verif;
 mod welcomes;
 
 pub use self::encryption::EncryptionConfig;
@@ -447,6 +449,18 @@ impl MdkSqliteStorage {
         })
     }
 
+    /// Verification hook: (`cipher_version`, `temp_store`, `foreign_keys`) of the live connection.
+    #[cfg(feature = "verif-hooks")]
+    pub fn verif_pragmas(&self) -> Result<(Option<String>, i64, i64), Error> {
+        let conn = self.connection.lock().unwrap();
+        let cipher_version: Option<String> = conn
+            .query_row("PRAGMA cipher_version", [], |row| row.get(0))
+            .ok();
+        let temp_store: i64 = conn.query_row("PRAGMA temp_store", [], |row| row.get(0))?;
+        let foreign_keys: i64 = conn.query_row("PRAGMA foreign_keys", [], |row| row.get(0))?;
+        Ok((cipher_version, temp_store, foreign_keys))
+    }
+
     /// Provides access to the underlying connection for MDK storage operations.
     ///
     /// This method is for internal use by the group, message, and welcome storage implementations.
@@ -454,6 +468,8 @@ impl MdkSqliteStorage {
     where
         F: FnOnce(&Connection) -> T,
     {
+        #[cfg(feature = "verif-hooks")]
+        crate::verif::tick("with_connection");
         let conn = self.connection.lock().unwrap();
         f(&conn)
     }
@@ -461,6 +477,8 @@ impl MdkSqliteStorage {
     /// Creates a snapshot of a group's state by copying all group-related rows
     /// to the snapshot table.
     fn snapshot_group_state(&self, group_id: &GroupId, name: &str) -> Result<(), Error> {
+        #[cfg(feature = "verif-hooks")]
+        crate::verif::tick("snapshot:start");
         let conn = self.connection.lock().unwrap();
         let group_id_bytes = group_id.as_slice();
         // MLS storage uses MlsCodec serialization for group_id keys.
@@ -477,6 +495,8 @@ impl MdkSqliteStorage {
             .map_err(|e| Error::Database(e.to_string()))?;
 
         let result = (|| -> Result<(), Error> {
+            #[cfg(feature = "verif-hooks")]
+            crate::verif::tick("snapshot:begin");
             // Helper to insert snapshot rows
             let mut insert_stmt = conn
                 .prepare_cached(
@@ -496,6 +516,8 @@ impl MdkSqliteStorage {
                 &mls_group_id_bytes,
                 now,
             )?;
+            #[cfg(feature = "verif-hooks")]
+            crate::verif::tick("snapshot:table");
             Self::snapshot_openmls_proposals(
                 &conn,
                 &mut insert_stmt,
@@ -504,6 +526,8 @@ impl MdkSqliteStorage {
                 &mls_group_id_bytes,
                 now,
             )?;
+            #[cfg(feature = "verif-hooks")]
+            crate::verif::tick("snapshot:table");
             Self::snapshot_openmls_own_leaf_nodes(
                 &conn,
                 &mut insert_stmt,
@@ -512,6 +536,8 @@ impl MdkSqliteStorage {
                 &mls_group_id_bytes,
                 now,
             )?;
+            #[cfg(feature = "verif-hooks")]
+            crate::verif::tick("snapshot:table");
             Self::snapshot_openmls_epoch_key_pairs(
                 &conn,
                 &mut insert_stmt,
@@ -520,9 +546,15 @@ impl MdkSqliteStorage {
                 &mls_group_id_bytes,
                 now,
             )?;
+            #[cfg(feature = "verif-hooks")]
+            crate::verif::tick("snapshot:table");
             // MDK tables use raw bytes for mls_group_id
             Self::snapshot_groups_table(&conn, &mut insert_stmt, name, group_id_bytes, now)?;
+            #[cfg(feature = "verif-hooks")]
+            crate::verif::tick("snapshot:table");
             Self::snapshot_group_relays(&conn, &mut insert_stmt, name, group_id_bytes, now)?;
+            #[cfg(feature = "verif-hooks")]
+            crate::verif::tick("snapshot:table");
             Self::snapshot_group_exporter_secrets(
                 &conn,
                 &mut insert_stmt,
@@ -531,6 +563,8 @@ impl MdkSqliteStorage {
                 now,
             )?;
 
+            #[cfg(feature = "verif-hooks")]
+            crate::verif::tick("snapshot:pre-commit");
             Ok(())
         })();
 
@@ -538,6 +572,8 @@ impl MdkSqliteStorage {
             Ok(()) => {
                 conn.execute("COMMIT", [])
                     .map_err(|e| Error::Database(e.to_string()))?;
+                #[cfg(feature = "verif-hooks")]
+                crate::verif::tick("snapshot:committed");
                 Ok(())
             }
             Err(e) => {
@@ -854,6 +890,8 @@ impl MdkSqliteStorage {
     /// Restores a group's state from a snapshot by deleting current rows
     /// and re-inserting from the snapshot table.
     fn restore_group_from_snapshot(&self, group_id: &GroupId, name: &str) -> Result<(), Error> {
+        #[cfg(feature = "verif-hooks")]
+        crate::verif::tick("restore:start");
         let conn = self.connection.lock().unwrap();
         let group_id_bytes = group_id.as_slice();
         // MLS storage uses a serde-compatible binary serialization codec for group_id keys.
@@ -931,6 +969,8 @@ impl MdkSqliteStorage {
             .map_err(|e| Error::Database(e.to_string()))?;
 
         let result = (|| -> Result<(), Error> {
+            #[cfg(feature = "verif-hooks")]
+            crate::verif::tick("restore:begin");
             // 2. Delete current rows for this group from all 7 tables
             // OpenMLS tables use MlsCodec-serialized group_id as their key
             conn.execute(
@@ -938,24 +978,32 @@ impl MdkSqliteStorage {
                 [&mls_group_id_bytes],
             )
             .map_err(|e| Error::Database(e.to_string()))?;
+            #[cfg(feature = "verif-hooks")]
+            crate::verif::tick("restore:stmt");
 
             conn.execute(
                 "DELETE FROM openmls_proposals WHERE group_id = ?",
                 [&mls_group_id_bytes],
             )
             .map_err(|e| Error::Database(e.to_string()))?;
+            #[cfg(feature = "verif-hooks")]
+            crate::verif::tick("restore:stmt");
 
             conn.execute(
                 "DELETE FROM openmls_own_leaf_nodes WHERE group_id = ?",
                 [&mls_group_id_bytes],
             )
             .map_err(|e| Error::Database(e.to_string()))?;
+            #[cfg(feature = "verif-hooks")]
+            crate::verif::tick("restore:stmt");
 
             conn.execute(
                 "DELETE FROM openmls_epoch_key_pairs WHERE group_id = ?",
                 [&mls_group_id_bytes],
             )
             .map_err(|e| Error::Database(e.to_string()))?;
+            #[cfg(feature = "verif-hooks")]
+            crate::verif::tick("restore:stmt");
 
             // For MDK tables, we need to disable foreign key checks temporarily
             // or delete in the right order to avoid FK violations
@@ -964,18 +1012,24 @@ impl MdkSqliteStorage {
                 [group_id_bytes],
             )
             .map_err(|e| Error::Database(e.to_string()))?;
+            #[cfg(feature = "verif-hooks")]
+            crate::verif::tick("restore:stmt");
 
             conn.execute(
                 "DELETE FROM group_relays WHERE mls_group_id = ?",
                 [group_id_bytes],
             )
             .map_err(|e| Error::Database(e.to_string()))?;
+            #[cfg(feature = "verif-hooks")]
+            crate::verif::tick("restore:stmt");
 
             conn.execute(
                 "DELETE FROM groups WHERE mls_group_id = ?",
                 [group_id_bytes],
             )
             .map_err(|e| Error::Database(e.to_string()))?;
+            #[cfg(feature = "verif-hooks")]
+            crate::verif::tick("restore:stmt");
 
             // Note: The CASCADE will have deleted the snapshot rows, but we already
             // have the data in memory (snapshot_rows).
@@ -1043,6 +1097,8 @@ impl MdkSqliteStorage {
                     ],
                 )
                 .map_err(|e| Error::Database(e.to_string()))?;
+                #[cfg(feature = "verif-hooks")]
+                crate::verif::tick("restore:stmt");
             }
 
             // Now restore all other tables (groups already done above)
@@ -1058,6 +1114,8 @@ impl MdkSqliteStorage {
                             rusqlite::params![gid, data_type, row_data],
                         )
                         .map_err(|e| Error::Database(e.to_string()))?;
+                        #[cfg(feature = "verif-hooks")]
+                        crate::verif::tick("restore:stmt");
                     }
                     "openmls_proposals" => {
                         let (gid, proposal_ref): (Vec<u8>, Vec<u8>) =
@@ -1069,6 +1127,8 @@ impl MdkSqliteStorage {
                             rusqlite::params![gid, proposal_ref, row_data],
                         )
                         .map_err(|e| Error::Database(e.to_string()))?;
+                        #[cfg(feature = "verif-hooks")]
+                        crate::verif::tick("restore:stmt");
                     }
                     "openmls_own_leaf_nodes" => {
                         let (gid, leaf_node): (Vec<u8>, Vec<u8>) = serde_json::from_slice(row_data)
@@ -1079,6 +1139,8 @@ impl MdkSqliteStorage {
                             rusqlite::params![gid, leaf_node],
                         )
                         .map_err(|e| Error::Database(e.to_string()))?;
+                        #[cfg(feature = "verif-hooks")]
+                        crate::verif::tick("restore:stmt");
                     }
                     "openmls_epoch_key_pairs" => {
                         let (gid, epoch_id, leaf_index): (Vec<u8>, Vec<u8>, i64) =
@@ -1090,6 +1152,8 @@ impl MdkSqliteStorage {
                             rusqlite::params![gid, epoch_id, leaf_index, row_data],
                         )
                         .map_err(|e| Error::Database(e.to_string()))?;
+                        #[cfg(feature = "verif-hooks")]
+                        crate::verif::tick("restore:stmt");
                     }
                     "groups" => {
                         // Already restored in the first pass above
@@ -1103,6 +1167,8 @@ impl MdkSqliteStorage {
                             rusqlite::params![mls_group_id, relay_url],
                         )
                         .map_err(|e| Error::Database(e.to_string()))?;
+                        #[cfg(feature = "verif-hooks")]
+                        crate::verif::tick("restore:stmt");
                     }
                     "group_exporter_secrets" => {
                         let (mls_group_id, epoch): (Vec<u8>, i64) = serde_json::from_slice(row_key)
@@ -1112,6 +1178,8 @@ impl MdkSqliteStorage {
                             rusqlite::params![mls_group_id, epoch, row_data],
                         )
                         .map_err(|e| Error::Database(e.to_string()))?;
+                        #[cfg(feature = "verif-hooks")]
+                        crate::verif::tick("restore:stmt");
                     }
                     _ => {
                         // Unknown table, skip
@@ -1125,6 +1193,8 @@ impl MdkSqliteStorage {
                 rusqlite::params![name, group_id_bytes],
             )
             .map_err(|e| Error::Database(e.to_string()))?;
+            #[cfg(feature = "verif-hooks")]
+            crate::verif::tick("restore:stmt");
 
             // 5. Re-insert other snapshots that were deleted by CASCADE
             // This preserves multiple snapshots when rolling back to one of them.
@@ -1135,6 +1205,8 @@ impl MdkSqliteStorage {
                     rusqlite::params![snap_name, group_id_bytes, table_name, row_key, row_data, created_at],
                 )
                 .map_err(|e| Error::Database(e.to_string()))?;
+                #[cfg(feature = "verif-hooks")]
+                crate::verif::tick("restore:stmt");
             }
 
             Ok(())
@@ -1144,6 +1216,8 @@ impl MdkSqliteStorage {
             Ok(()) => {
                 conn.execute("COMMIT", [])
                     .map_err(|e| Error::Database(e.to_string()))?;
+                #[cfg(feature = "verif-hooks")]
+                crate::verif::tick("restore:committed");
                 Ok(())
             }
             Err(e) => {
@@ -1155,6 +1229,8 @@ impl MdkSqliteStorage {
 
     /// Deletes a snapshot that is no longer needed.
     fn delete_group_snapshot(&self, group_id: &GroupId, name: &str) -> Result<(), Error> {
+        #[cfg(feature = "verif-hooks")]
+        crate::verif::tick("release:start");
         let conn = self.connection.lock().unwrap();
         conn.execute(
             "DELETE FROM group_state_snapshots WHERE snapshot_name = ? AND group_id = ?",
@@ -1203,6 +1279,8 @@ impl MdkStorageProvider for MdkSqliteStorage {
         &self,
         group_id: &GroupId,
     ) -> Result<Vec<(String, u64)>, MdkStorageError> {
+        #[cfg(feature = "verif-hooks")]
+        crate::verif::tick("list_snapshots:start");
         let conn = self.connection.lock().unwrap();
         let mut stmt = conn
             .prepare_cached(
@@ -1224,6 +1302,8 @@ impl MdkStorageProvider for MdkSqliteStorage {
     }
 
     fn prune_expired_snapshots(&self, min_timestamp: u64) -> Result<usize, MdkStorageError> {
+        #[cfg(feature = "verif-hooks")]
+        crate::verif::tick("prune:start");
         let conn = self.connection.lock().unwrap();
         let deleted = conn
             .execute(
